@@ -169,6 +169,9 @@ def main(argv=None):
     # checks of the specification beyond the listed properties (ids X..) keep their evidence apart from the per-property files
     extra = pid.startswith('X')
     evdir = os.path.join(VERIF, 'evidence', 'extra') if extra else os.path.join(VERIF, 'evidence')
+    if os.path.realpath(REPO) != '/repo':
+        # a run against a scratch copy / snapshot is not evidence about /repo: kept apart (not committed)
+        evdir = os.path.join(VERIF, 'evidence', 'scratch')
     os.makedirs(evdir, exist_ok=True)
     if not args.replay:
         with open(os.path.join(evdir, pid + '.json'), 'w') as f:
